@@ -11,6 +11,10 @@ use serde::{Deserialize, Serialize};
 pub struct GenSheet {
     pub scss: String,
     pub features: Vec<String>,
+    /// (property name, exact string value) of declarations `s<k>: "<random string>"`: the output must
+    /// carry a single string token with exactly that value
+    #[serde(default)]
+    pub expect_strings: Vec<(String, String)>,
 }
 
 #[derive(Clone, Copy, Debug)]
@@ -37,6 +41,7 @@ struct G<'a, 'b> {
     o: SheetOpts,
     feats: Vec<String>,
     depth: usize,
+    expect_strings: Vec<(String, String)>,
 }
 
 const SELECTORS: &[&str] = &[
@@ -95,7 +100,40 @@ const INTERP_SAFE: &[&str] = &["$i", "$s", "1 + 1", "abc", "$i * 2", "a b", "10p
 /// payloads whose text differs between styles (fraction below 1, colours, comma lists)
 const INTERP_STYLE_DEP: &[&str] = &["0.5", "$n", "#ff0000", "$c", "(a, b)", "math.div(1, 4)", "rgba(0, 0, 0, 0.5)", "1px, 2px"];
 
+/// characters a generated string may contain: letters incl. the hex letters, digits, space,
+/// punctuation that matters to a serializer, control characters, non-ASCII
+const STR_CHARS: &[char] = &[
+    'a', 'b', 'c', 'f', 'A', 'F', 'g', 'z', '0', '9', ' ', '-', '_', '"', '\'', '\\', '/', '*', '{', '}', ';', ':', '#', '$', '@',
+    '(', ')', '\n', '\t', '\r', '\u{1}', '\u{8}', '\u{b}', '\u{c}', '\u{1f}', '\u{7f}', '\u{a0}', 'é', '日', '😀', '\u{301}', '\u{feff}',
+];
+
+/// values for attribute selectors: identifiers and strings that must stay quoted
+const ATTR_VALUES: &[&str] = &[
+    "x", "ab", "-1", "-", "1a", "a b", "", "--x", "-a", "é", "a.b", "#x", "a\\\"b", "0", "_a", "-2x", "a-b", "A",
+];
+
 impl<'a, 'b> G<'a, 'b> {
+    /// a quoted string literal over STR_CHARS, written so that the SCSS source means exactly those
+    /// characters (control characters as hex escapes terminated by a space)
+    fn random_string(&mut self) -> (String, String) {
+        let n = self.c.pick(6);
+        let mut lit = String::from("\"");
+        let mut value = String::new();
+        for _ in 0..n {
+            let ch = *self.c.of(&STR_CHARS.iter().collect::<Vec<_>>());
+            value.push(ch);
+            match ch {
+                '"' => lit.push_str("\\\""),
+                '\\' => lit.push_str("\\\\"),
+                '#' => lit.push_str("\\#"),
+                c if (c as u32) < 0x20 || c as u32 == 0x7f => lit.push_str(&format!("\\{:x} ", c as u32)),
+                c => lit.push(c),
+            }
+        }
+        lit.push('"');
+        (lit, value)
+    }
+
     fn feat(&mut self, f: &str) {
         if !self.feats.iter().any(|x| x == f) {
             self.feats.push(f.to_string());
@@ -132,7 +170,12 @@ impl<'a, 'b> G<'a, 'b> {
             }
             3 => {
                 self.feat("string");
-                self.c.of(STRINGS).to_string()
+                if self.c.chance(1, 2) {
+                    self.feat("random-string");
+                    self.random_string().0
+                } else {
+                    self.c.of(STRINGS).to_string()
+                }
             }
             4 => self.c.of(UNQUOTED).to_string(),
             5 => {
@@ -174,6 +217,14 @@ impl<'a, 'b> G<'a, 'b> {
     }
 
     fn decl(&mut self, ind: &str) -> String {
+        if self.c.chance(1, 6) {
+            // a string whose exact value is known: checked against the output token
+            self.feat("random-string");
+            let (lit, value) = self.random_string();
+            let name = format!("s{}", self.expect_strings.len());
+            self.expect_strings.push((name.clone(), value));
+            return format!("{}{}: {};\n", ind, name, lit);
+        }
         let prop = self.c.of(PROPS).to_string();
         let name = match self.c.pick(8) {
             0 => {
@@ -209,11 +260,25 @@ impl<'a, 'b> G<'a, 'b> {
     }
 
     fn selector(&mut self) -> String {
-        let s = self.c.of(SELECTORS).to_string();
+        let s = if self.c.chance(1, 6) {
+            self.feat("attribute-selector");
+            let op = self.c.of(&["=", "~=", "|=", "^=", "$=", "*="]);
+            let v = self.c.of(ATTR_VALUES);
+            let q = if self.c.flag() { '"' } else { '\'' };
+            let flag = if self.c.chance(1, 5) { " i" } else { "" };
+            format!("{}[data-v{}{}{}{}{}]", self.c.of(&["", "a", ".k"]), op, q, if q == '\'' { v.replace("\\\"", "\"") } else { v.to_string() }, q, flag)
+        } else {
+            self.c.of(SELECTORS).to_string()
+        };
         match self.c.pick(10) {
             0 => {
                 self.feat("interp-selector");
-                format!(".p-#{{{}}} {}", self.c.of(&["$s", "$i", "abc", "1 + 1"]), s)
+                match self.c.pick(4) {
+                    0 => format!("#{{$s}}[a] {}", s),
+                    1 => format!(".x-#{{$s}}:hover, {}", s),
+                    2 => format!("#{{$s}} > {}", s),
+                    _ => format!(".p-#{{{}}} {}", self.c.of(&["$s", "$i", "abc", "1 + 1"]), s),
+                }
             }
             1 if self.o.style_dependent_interp => {
                 self.feat("interp-style-dependent");
@@ -335,8 +400,11 @@ pub fn gen_sheet(c: &mut Chooser, o: SheetOpts) -> GenSheet {
         o,
         feats: vec![],
         depth: 0,
+        expect_strings: vec![],
     };
-    let mut s = String::from("@use \"sass:math\";\n$i: 3;\n$n: 0.5;\n$c: #ff0000;\n$s: \"str\";\n$l: 1px 2px 3px;\n");
+    // the interpolated string is sometimes non-ASCII (byte length != character count)
+    let sval = g.c.of(&["str", "str", "str", "éééé", "日本", "a😀b", "ééééééé"]);
+    let mut s = format!("@use \"sass:math\";\n$i: 3;\n$n: 0.5;\n$c: #ff0000;\n$s: \"{}\";\n$l: 1px 2px 3px;\n", sval);
     if g.c.chance(1, 6) {
         g.feat("plain-css-import");
         s.insert_str(0, "@import url(\"x.css\");\n");
@@ -348,5 +416,6 @@ pub fn gen_sheet(c: &mut Chooser, o: SheetOpts) -> GenSheet {
     GenSheet {
         scss: s,
         features: g.feats,
+        expect_strings: g.expect_strings,
     }
 }
